@@ -270,18 +270,27 @@ def _gen_glob(rng, proj, feats, namer):
     n = rng.randint(0, 3)
     # opt-in (never drawn from FEATURES): a pattern that spans directory levels
     deep = "deepglobs" in feats and rng.random() < 0.7
+    if "deepglobs" in feats and rng.random() < 0.4:
+        # the pattern's base directory is nested: with no match yet, neither level exists
+        d = d + "/in"
     for k in range(n):
         sub = f"s{k % 2}/" if deep and k else ""
         proj["sources"][f"{d}/{sub}i{k}.dat"] = _token(proj)
     mode = rng.choice(["tree", "static_pattern"])
     if mode == "tree":
         proj["trees"][d + "/"] = plan
+    # a named wildcard with a sub-pattern, next to a file that only the bare `*` would match
+    subs = {}
+    if rng.random() < 0.3:
+        subs = {"n": "i*"}
+        proj["sources"][f"{d}/zz{proj['uid']}.dat"] = _token(proj)
     proj["globs"].append(
         {
             "plan": plan,
             "dir": d,
             "mode": mode,
             "deep": deep,
+            "subs": subs,
             "pattern": f"{d}/**/${{*n}}.dat" if deep else f"{d}/${{*n}}.dat",
             "out": f"{d}_o_{{n}}.txt",
             "name": f"G{len(proj['globs'])}",
@@ -422,7 +431,7 @@ def render(proj) -> dict:
             pat = _rel(g["pattern"], wd)
             if g["mode"] == "static_pattern":
                 body.append(["static", pat])
-            body.append(["glob", pat, {}, g["name"]])
+            body.append(["glob", pat, dict(g.get("subs") or {}), g["name"]])
             out = _rel(g["out"], wd)
             body.append(
                 [
